@@ -1587,3 +1587,10 @@ M('C15', 'interpolation weights cast to the value dtype', DUF,
 M('C17', 'legacy min ignores the dtype argument', 'odl/util/ufuncs.py',
   "            np.minimum, 'reduce', self.elem,\n            axis=axis, dtype=dtype, out=(out,), keepdims=keepdims)",
   "            np.minimum, 'reduce', self.elem,\n            axis=axis, out=(out,), keepdims=keepdims)", 'ufuncs.min')
+M('C18', 'wavelet adjoint scaled by the transformed cell sides only', 'odl/trafos/wavelet.py',
+  "            scale = 1 / self.domain.partition.cell_volume",
+  "            scale = 1 / np.prod(self.domain.partition.cell_sides[list(self.axes)])",
+  'C18-R9')
+M('C18', 'inverse wavelet adjoint unscaled', 'odl/trafos/wavelet.py',
+  "            scale = self.range.partition.cell_volume\n            return scale * self.inverse",
+  "            return 1.0 * self.inverse", 'WaveletTransformInverse.adjoint')
